@@ -168,7 +168,7 @@ def run : Handler := fun req => do
               match st.getNat?.toOption with
               | some n =>
                 if !statusOkFor dkey n then
-                  let known := (if v.tok == .named "Redirection3XX".toList then ["KnownRedirection3XXIs500"] else []) ++ (if !canonicalKey dkey then ["KnownNonCanonicalKey"] else [])
+                  let known := (if !canonicalKey dkey then ["KnownNonCanonicalKey"] else [])
                   return verdict false known s!"variant {vn} (declared for {String.ofList dkey}) is sent with status {n}"
               | none => return verdict false [] s!"variant {vn}: unreadable status expression"
               -- media type: JSON encoding is right only for JSON-category payloads
